@@ -1,64 +1,64 @@
 // REPLAY for property DEV, harness k_normal_early_return_keeps_lazy_state (unit K-normal-early, engine kani)
 // Failed obligations:
-//   OBL:normal.huffman_only_emits_no_matches [C10]  at miniz_oxide/src/deflate/core.rs:3598:77 in function deflate::core::record_match
+//   OBL:normalearly.saved_literal_is_the_skipped_byte [C02 C01]  at miniz_oxide/src/deflate/core.rs:4016:13 in function deflate::core::verif_deflate_core::k_normal_early_return_keeps_lazy_state
 // no-failing-input-found: the verifier reported the failed obligation without a concrete model.
 // Verifier output (tail):
-//   Check 1530: __rust_realloc.precondition_instance.2
+//   Check 1540: __rust_realloc.precondition_instance.2
 //   	 - Status: SUCCESS
 //   	 - Description: "memcpy source region readable"
 //   	 - Location: ../../../../../root/.kani/kani-0.68.0/library/kani/kani_lib.c:114 in function __rust_realloc
 //   
-//   Check 1531: __rust_realloc.precondition_instance.3
+//   Check 1541: __rust_realloc.precondition_instance.3
 //   	 - Status: SUCCESS
 //   	 - Description: "memcpy destination region writeable"
 //   	 - Location: ../../../../../root/.kani/kani-0.68.0/library/kani/kani_lib.c:114 in function __rust_realloc
 //   
-//   Check 1532: __rust_realloc.precondition_instance.4
+//   Check 1542: __rust_realloc.precondition_instance.4
 //   	 - Status: SUCCESS
 //   	 - Description: "free argument must be NULL or valid pointer"
 //   	 - Location: ../../../../../root/.kani/kani-0.68.0/library/kani/kani_lib.c:115 in function __rust_realloc
 //   
-//   Check 1533: __rust_realloc.precondition_instance.5
+//   Check 1543: __rust_realloc.precondition_instance.5
 //   	 - Status: SUCCESS
 //   	 - Description: "free argument must be dynamic object"
 //   	 - Location: ../../../../../root/.kani/kani-0.68.0/library/kani/kani_lib.c:115 in function __rust_realloc
 //   
-//   Check 1534: __rust_realloc.precondition_instance.6
+//   Check 1544: __rust_realloc.precondition_instance.6
 //   	 - Status: SUCCESS
 //   	 - Description: "free argument has offset zero"
 //   	 - Location: ../../../../../root/.kani/kani-0.68.0/library/kani/kani_lib.c:115 in function __rust_realloc
 //   
-//   Check 1535: __rust_realloc.precondition_instance.7
+//   Check 1545: __rust_realloc.precondition_instance.7
 //   	 - Status: SUCCESS
 //   	 - Description: "double free"
 //   	 - Location: ../../../../../root/.kani/kani-0.68.0/library/kani/kani_lib.c:115 in function __rust_realloc
 //   
-//   Check 1536: __rust_realloc.precondition_instance.8
+//   Check 1546: __rust_realloc.precondition_instance.8
 //   	 - Status: SUCCESS
 //   	 - Description: "free called for new[] object"
 //   	 - Location: ../../../../../root/.kani/kani-0.68.0/library/kani/kani_lib.c:115 in function __rust_realloc
 //   
-//   Check 1537: __rust_realloc.precondition_instance.9
+//   Check 1547: __rust_realloc.precondition_instance.9
 //   	 - Status: SUCCESS
 //   	 - Description: "free called for stack-allocated object"
 //   	 - Location: ../../../../../root/.kani/kani-0.68.0/library/kani/kani_lib.c:115 in function __rust_realloc
 //   
-//   Check 1538: calloc.pointer_dereference.1
+//   Check 1548: calloc.pointer_dereference.1
 //   	 - Status: SUCCESS
 //   	 - Description: "dereference failure: dead object"
 //   	 - Location: <builtin-library-calloc>:14 in function calloc
 //   
 //   
 //   SUMMARY:
-//    ** 1 of 1536 failed (32 unreachable)
+//    ** 1 of 1546 failed (34 unreachable)
 //   
 //    ** 2 of 2 cover properties satisfied
 //   
-//   Failed Checks: "OBL:normal.huffman_only_emits_no_matches [C10]"
-//    File: "miniz_oxide/src/deflate/core.rs", line 3598, in deflate::core::record_match
+//   Failed Checks: "OBL:normalearly.saved_literal_is_the_skipped_byte [C02 C01]"
+//    File: "miniz_oxide/src/deflate/core.rs", line 4016, in deflate::core::verif_deflate_core::k_normal_early_return_keeps_lazy_state
 //   
 //   VERIFICATION:- FAILED
-//   Verification Time: 77.28907s
+//   Verification Time: 73.28668s
 //   
 //   Manual Harness Summary:
 //   Verification failed for - deflate::core::verif_deflate_core::k_normal_early_return_keeps_lazy_state
